@@ -150,6 +150,101 @@ func checkAlias(c aliasCase) evid.Outcome {
 	return evid.Outcome{NonTrivial: nt, Class: c.Decoder + "/accepted"}
 }
 
+// ---- 1b. decoded values are independent of each other ----
+
+// scribble overwrites everything reachable from v through pointers, slices and arrays (what a caller may legitimately do
+// with a value it owns): integers are complemented, bools flipped, bytes complemented.
+func scribble(v reflect.Value, depth int) {
+	if depth > 8 {
+		return
+	}
+	switch v.Kind() {
+	case reflect.Ptr, reflect.Interface:
+		if !v.IsNil() {
+			scribble(v.Elem(), depth+1)
+		}
+	case reflect.Struct:
+		for i := 0; i < v.NumField(); i++ {
+			if v.Type().Field(i).PkgPath == "" {
+				scribble(v.Field(i), depth+1)
+			}
+		}
+	case reflect.Slice, reflect.Array:
+		for i := 0; i < v.Len(); i++ {
+			scribble(v.Index(i), depth+1)
+		}
+	case reflect.Bool:
+		if v.CanSet() {
+			v.SetBool(!v.Bool())
+		}
+	case reflect.Uint8, reflect.Uint16, reflect.Uint32, reflect.Uint64, reflect.Uint:
+		if v.CanSet() {
+			v.SetUint(^v.Uint() & (1<<uint(v.Type().Bits()) - 1))
+		}
+	case reflect.Int8, reflect.Int16, reflect.Int32, reflect.Int64, reflect.Int:
+		if v.CanSet() {
+			v.SetInt(^v.Int())
+		}
+	}
+}
+
+type indepCase struct {
+	Decoder string   `json:"decoder"`
+	Uplink  bool     `json:"uplink"`
+	A       evid.Hex `json:"a"`
+	B       evid.Hex `json:"b"`
+	Chain   bool     `json:"chain"`
+}
+
+func genIndep(t *rapid.T) indepCase {
+	a := genAlias(t)
+	c := indepCase{Decoder: a.Decoder, Uplink: a.Uplink, A: a.Input, Chain: a.Chain}
+	c.B = c.A
+	if rapid.Bool().Draw(t, "other") {
+		c.B = genAlias(t).Input
+		if a.Decoder == "lorawan.PHYPayload" {
+			c.B = gen.AnyFrame(t).Encode()
+		}
+	}
+	return c
+}
+
+func checkIndep(c indepCase) evid.Outcome {
+	d := gen.DecoderByName(c.Decoder)
+	if d == nil {
+		return evid.Outcome{Skip: true}
+	}
+	lorawan.VerifResetMACPayloadRegistry()
+	dec := func(in []byte) any {
+		v := d.New()
+		if d.Decode(v, c.Uplink, append([]byte{}, in...)) != nil {
+			return nil
+		}
+		if p, ok := v.(*lorawan.PHYPayload); ok && c.Chain {
+			_ = p.DecodeFOptsToMACCommands()
+			if m, ok := p.MACPayload.(*lorawan.MACPayload); ok && m.FPort != nil && *m.FPort == 0 {
+				_ = p.DecodeFRMPayloadToMACCommands()
+			}
+		}
+		return v
+	}
+	v1, v2 := dec(c.A), dec(c.B)
+	if v1 == nil || v2 == nil {
+		return evid.Outcome{Class: c.Decoder + "/rejected"}
+	}
+	before := observe(v2)
+	scribble(reflect.ValueOf(v1), 0)
+	if after := observe(v2); after != before {
+		return evid.Fail("%s: two values decoded from %x and %x share memory: overwriting every field of the first changes the second\n before: %s\n after:  %s", c.Decoder, []byte(c.A), []byte(c.B), before, after)
+	}
+	// and a value decoded afterwards is not affected either
+	v3 := dec(c.B)
+	if v3 == nil || observe(v3) != before {
+		return evid.Fail("%s: after a caller overwrote every field of a value decoded from %x, decoding %x gives a different result than before (hidden package-level state)", c.Decoder, []byte(c.A), []byte(c.B))
+	}
+	return evid.Outcome{NonTrivial: len(c.A) > 8, Class: c.Decoder + "/accepted"}
+}
+
 // ---- 2. out-of-slice writes ----
 
 type guardCase struct {
@@ -476,6 +571,10 @@ func TestProp(t *testing.T) {
 	evid.Rapid(r, t, "input-output-aliasing",
 		fmt.Sprintf("rapid: valid frames of all MTypes (half of them further decoded into MAC commands) and each of the %d decoder types on inputs of an accepted length: the decoded value is observed (re-encoding, JSON, deep print), the input buffer is overwritten with its complement, and the value must be unchanged; for frames also the bytes returned by MarshalBinary/MarshalText are overwritten. Non-trivial: accepted input longer than 8 bytes.", len(gen.Decoders)),
 		120000, 4000000, genAlias, checkAlias)
+
+	evid.Rapid(r, t, "decoded-values-independent",
+		"rapid: two values decoded from the same or from two different inputs (frames, half of them further decoded into MAC commands, and every decoder type); every exported field reachable from the first through pointers, slices and arrays is overwritten (what a caller may do with a value it owns); the second value, and a third one decoded afterwards, must be observably unchanged (no memory shared between decoded values, no package-level tables handed out). Non-trivial: input longer than 8 bytes.",
+		80000, 3000000, genIndep, checkIndep)
 
 	evid.Rapid(r, t, "guard-bytes",
 		"rapid: exported EncryptFRMPayload / EncryptFOpts and the PHYPayload methods Encrypt*/Decrypt*/Validate*/Set*/Marshal*/Decode*ToMACCommands/DecryptJoinAcceptPayload on a frame whose payload bytes are a sub-slice back[g:g+n] of a larger buffer filled with a guard pattern, 0..8 guard bytes in front and 0..32 bytes of spare capacity behind; oracle: every byte outside the slice is unchanged afterwards, and for the methods (which work on copies) also the bytes inside. Non-trivial: length not a multiple of 16 with spare capacity >= 1.",
